@@ -1803,6 +1803,29 @@ def tool_option_probes(ctx, harness, stats):
         if msg:
             stats["disagreements_checked"] += 1
             report(ctx, "cut", "cut-archive:" + what.replace(" ", "-")[:40], msg, {"optprobe": {"kind": "cut", "archive_hex": tok(arc), "what": what}})
+    # (e) compressed input (`tar_open_stream` puts a decompressor in front of the iterator; since /repo d69b61b `it_next` reads the
+    # compressed stream to its end when the archive's end marker is reached): an intact .tar.gz converts, one whose gzip trailer
+    # (CRC32/ISIZE, which lies behind the end marker) is damaged or missing must fail.  The Lean model is over the *decompressed*
+    # byte stream, where this drain is invisible; decompressor errors are C15's subject — this is only the C04-side probe.
+    import gzip
+    plain = dirh + f5 + b"\0" * (1024 + 512 * rng.randint(600, 1200))     # (the trailer must lie behind the decompressor's first 256 KiB window)
+    gz = gzip.compress(plain, mtime=0)
+    flipped = gz[:-8] + bytes([gz[-8] ^ 0x55]) + gz[-7:]
+    for ci, (arc, what, must_fail) in enumerate([(gz, "gzip, intact", False), (flipped, "gzip, CRC32 of the trailer damaged", True),
+                                                 (gz[:-rng.randint(1, 8)], "gzip, trailer cut", True)]):
+        img = d / ("gz%d.sqfs" % ci)
+        r = sh_t([str(tools["tar2sqfs"]), "-q", "-f", "-j", "1", str(img)], input=arc, env=ctx.san_env(), timeout=1800, text=False)
+        try:
+            img.unlink()
+        except OSError:
+            pass
+        seen["compressed_input_cases"] = seen.get("compressed_input_cases", 0) + 1
+        stats["evaluations"] += 1
+        if r.returncode >= 90 or r.returncode < 0 or (r.returncode != 0) != must_fail:
+            stats["disagreements_checked"] += 1
+            report(ctx, "gzin", "compressed-input:" + what.replace(" ", "-").replace(",", ""), "tar2sqfs on a compressed archive (%s): exit %d, expected %s — %s" % (
+                what, r.returncode, "failure" if must_fail else "success", r.stderr.decode("latin1")[-200:]),
+                {"optprobe": {"kind": "gz", "archive_hex": tok(arc), "must_fail": must_fail, "what": what}})
     stats["option_probes"] = seen
     if not (seen["exclude_cases"] and seen["no_skip_cases"] and seen.get("big_sparse_cases") and seen.get("cut_archives")):
         raise vlib.CheckFailure("option probes did not all run: %s" % seen)
@@ -2278,6 +2301,10 @@ def replay(ctx, path):
         o = rp["optprobe"]
         if o["kind"] == "big-sparse":
             msg = big_sparse_verdict(ctx, tools, ctx.scratch, "replay", o["dialect"], o.get("salt", 0))
+        elif o["kind"] == "gz":
+            img = ctx.scratch / "gzreplay.sqfs"
+            r = sh_t([str(tools["tar2sqfs"]), "-q", "-f", "-j", "1", str(img)], input=untok(o["archive_hex"]), env=ctx.san_env(), timeout=1800, text=False)
+            msg = None if (r.returncode != 0) == o["must_fail"] and 0 <= r.returncode < 90 else "tar2sqfs on %s: exit %d" % (o["what"], r.returncode)
         elif o["kind"] == "cut":
             msg = cut_verdict(ctx, tools, ctx.scratch, "replay", untok(o["archive_hex"]), o["what"])
         elif o["kind"] == "exclude":
